@@ -59,7 +59,7 @@ def levelValues (fmt : Fmt) (raw : Nat) : List Nat :=
   | .free => [gaSub .free raw]
 
 /-- number of levels of a notation -/
-def Fmt.levels : Fmt → Nat
+def _root_.XknxVerif.Address.Fmt.levels : Fmt → Nat
   | .long => 3 | .short => 2 | .free => 1
 
 /-- all level values admitted, level by level -/
@@ -133,22 +133,36 @@ def intOrValue (s : Str) : Except FErr Int :=
 def adjust (d : Int) : Int :=
   if d > (gaMaxFree : Int) then (gaMaxFree : Int) else if d < 0 then 0 else d
 
-/-- `AddressFilter.Range(pattern)` → `(range_from, range_to)` -/
-def parseRange (p : Str) : Except FErr (Int × Int) := do
-  let ft : Int × Int ←
-    if p == [42] then pure (0, (gaMaxFree : Int))                       -- _init_wildcard
-    else if isdigit p then (intOrValue p).map fun d => (d, d)          -- _init_digit
-    else if p.contains 45 then                                         -- _init_range
-      match splitOn 45 p with
-      | [a, b] => do
-        let f ← if a.isEmpty then pure 0 else intOrValue a
-        let t ← if b.isEmpty then pure (gaMaxFree : Int) else intOrValue b
-        pure (f, t)
-      | _ => .error .value                                             -- too many values to unpack
-    else pure (0, 0)                                                   -- no branch taken: stays 0, 0
+/-- the branch taken by `Range._parse_pattern`: `(range_from, range_to)` before adjusting -/
+def rawRange (p : Str) : Except FErr (Int × Int) :=
+  if p == [42] then .ok (0, (gaMaxFree : Int))                         -- _init_wildcard
+  else if isdigit p then                                               -- _init_digit
+    match intOrValue p with
+    | .ok d => .ok (d, d)
+    | .error e => .error e
+  else if p.contains 45 then                                           -- _init_range
+    match splitOn 45 p with
+    | [a, b] =>
+      match (if a.isEmpty then .ok 0 else intOrValue a) with
+      | .error e => .error e
+      | .ok f =>
+        match (if b.isEmpty then .ok (gaMaxFree : Int) else intOrValue b) with
+        | .error e => .error e
+        | .ok t => .ok (f, t)
+    | _ => .error .value                                               -- too many values to unpack
+  else .ok (0, 0)                                                      -- no branch taken: stays 0, 0
+
+/-- `_adjust_range` on both ends, then `_flip_range_if_necessary` -/
+def normalize (ft : Int × Int) : Int × Int :=
   let t := adjust ft.2
   let f := adjust ft.1
-  if f > t then pure (t, f) else pure (f, t)                           -- _flip_range_if_necessary
+  if f > t then (t, f) else (f, t)
+
+/-- `AddressFilter.Range(pattern)` → `(range_from, range_to)` -/
+def parseRange (p : Str) : Except FErr (Int × Int) :=
+  match rawRange p with
+  | .ok ft => .ok (normalize ft)
+  | .error e => .error e
 
 /-- `AddressFilter.LevelFilter(pattern)` → its ranges -/
 def parseLevel (p : Str) : Except FErr (List (Int × Int)) := mapE parseRange (splitOn 44 p)
@@ -165,9 +179,10 @@ def parseFilter (p : Str) : Except FErr Filter :=
     match igaParse (.str p) with
     | .ok r => .ok (.internal r)
     | .error _ => .error .parse
-  else do
-    let ls ← mapE parseLevel (splitOn 47 p)
-    if ls.length > 3 then .error .conversion else pure (.levels ls)
+  else
+    match mapE parseLevel (splitOn 47 p) with
+    | .error e => .error e
+    | .ok ls => if ls.length > 3 then .error .conversion else .ok (.levels ls)
 
 /-- `Range.match` -/
 def rangeMatch (r : Int × Int) (d : Nat) : Bool := r.1 ≤ (d : Int) && (d : Int) ≤ r.2
@@ -280,31 +295,39 @@ def fnmatch (name pat : Str) : Bool := globMatch (translate (pat.length + 1) pat
 
 /-! ### match -/
 
-/-- `AddressFilter.match(address)` under notation `fmt` -/
-def matchFilter (f : Filter) (fmt : Fmt) (address : Val) : Except FErr Bool := do
-  -- `if isinstance(address, str | int): address = parse_device_group_address(address)`
-  let a : Option DevAddr ←
-    match address with
-    | .str _ | .int _ =>
-      match parseDevice address with
-      | .ok d => pure (some d)
-      | .error .parse => .error .parse
-      | .error .value => .error .value
-    | .ga r => pure (some (.ga r))
-    | .iga s => pure (some (.iga s))
-    | _ => pure none
+/-- `if isinstance(address, str | int): address = parse_device_group_address(address)`; `none` = neither a
+`GroupAddress` nor an `InternalGroupAddress` afterwards -/
+def toDev (address : Val) : Except FErr (Option DevAddr) :=
+  match address with
+  | .str _ | .int _ =>
+    match parseDevice address with
+    | .ok d => .ok (some d)
+    | .error .parse => .error .parse
+    | .error .value => .error .value
+  | .ga r => .ok (some (.ga r))
+  | .iga s => .ok (some (.iga s))
+  | _ => .ok none
+
+/-- the dispatch of `AddressFilter.match` once the address is an object -/
+def matchDev (f : Filter) (fmt : Fmt) (a : Option DevAddr) : Except FErr Bool :=
   match a, f with
   | some (.ga raw), .levels (l0 :: ls) =>
     match ls with
     | [l1, l2] =>                                                       -- _match_level3
       if fmt != .long then .error .connection
-      else pure (levelMatch l0 (gaMain raw) && levelMatch l1 (gaMiddle raw) && levelMatch l2 (gaSub fmt raw))
+      else .ok (levelMatch l0 (gaMain raw) && levelMatch l1 (gaMiddle raw) && levelMatch l2 (gaSub fmt raw))
     | [l1] =>                                                           -- _match_level2
       if fmt == .free then .error .connection
-      else pure (levelMatch l0 (gaMain raw) && levelMatch l1 (gaSub fmt raw))
-    | _ => pure (levelMatch l0 (gaSub fmt raw))                         -- _match_free
-  | some (.iga s), .internal pat => if pat.isEmpty then pure false else pure (fnmatch s pat)
-  | _, _ => pure false
+      else .ok (levelMatch l0 (gaMain raw) && levelMatch l1 (gaSub fmt raw))
+    | _ => .ok (levelMatch l0 (gaSub fmt raw))                          -- _match_free
+  | some (.iga s), .internal pat => if pat.isEmpty then .ok false else .ok (fnmatch s pat)
+  | _, _ => .ok false
+
+/-- `AddressFilter.match(address)` under notation `fmt` -/
+def matchFilter (f : Filter) (fmt : Fmt) (address : Val) : Except FErr Bool :=
+  match toDev address with
+  | .error e => .error e
+  | .ok a => matchDev f fmt a
 
 /-! ### line protocol -/
 
